@@ -22,6 +22,10 @@ CONDS = {
     "eqlist": ("V('equal_to', [e2, 3])", [("e2", "int")]),
     "nelist": ("('or', V('not_equal_to', [e2, 3]), V('equal_to', []))", [("e2", "int")]),
     "itemslist": ("V('items_contain', c=[e2, 3])", [("e2", "int")]),
+    # tuple arguments are compared as tuples (a list node never equals a tuple; a tuple inside a membership list matches no list node)
+    "eqtuple": ("V('equal_to', (e2, e3))", [("e2", "int"), ("e3", "int")]),
+    "netuple": ("V('not_equal_to', (e2, e3))", [("e2", "int"), ("e3", "int")]),
+    "in_tuplelist": ("V('in_', [(e2, e3), 0, [e2]])", [("e2", "int"), ("e3", "int")]),
 }
 
 
@@ -82,6 +86,7 @@ QUICK = [
     (("a", "b"), "eq", "dm"), (("f1", "b"), "gt", "dk"), (("T",), "isdict", "dk"), (("Li",), "xor", "dl"), (("X", "Xiv"), "truthy", "dl"),
     (("l", "Liv", "X"), "gt", "dm"), (("a", "c", "L"), "factor", "dm"), (("s", "s2"), "gt", "dm"), (("L", "L"), "len", "dl"), (("Xc",), "or", "dm"),
     (("M", "M", "M"), "gt", "dm"), (("X", "i"), "and", "dl"),
+    (("a", "c"), "eqtuple", "dm"), (("M", "c"), "netuple", "dm"), (("a", "M"), "in_tuplelist", "dm"),
 ]
 
 
@@ -139,6 +144,25 @@ return ok
         case = rule_case(sh, c, "d6", L, intdoc=not ctx.quick and sh.count("X") >= 3)
         case["id"] = case["id"].replace("c05.rule.", "c05.ruledeep.")
         out.append(case)
+    # data-path arguments whose modifier cannot be evaluated on the referenced node (length of a number, keys of a list, an ambiguous
+    # single()): the condition cannot be evaluated for any selected node, so each one fails - the rule is tested and invalid, and an
+    # `or` / `xor` whose other operand decides still judges node by node; nothing raises
+    body = """
+doc = {'limit': u2, 'allowed': [u1, 2], 'xs': [u3, 'ab', [1]], 'dup': {'a': 1, 'b': 2}}
+P = ('xs', ListValue())
+ok = True
+for cond, exp in ((Value.length.equal_to(DataPath('limit').length()), [0, 1, 2]),
+                  (Value.in_(DataPath('allowed').map_keys()), [0, 1, 2]),
+                  (Value.equal_to(DataPath('dup', MapValue()).single()), [0, 1, 2]),
+                  (Value.equal_to(DataPath('limit').length()) | Value.is_instance(str), [0, 2]),
+                  (Value.equal_to(DataPath('limit').length()) ^ Value.is_instance(str), [0, 2]),
+                  (Value.is_instance(list) | Value.less_than(DataPath('allowed').map_values()), [0, 1])):
+    t = Rule(P, cond).test(doc)
+    ok = ok and same('tested, invalid, one failure per node that cannot be judged', (t.is_valid, t.tested, t.num_failures), (False, True, len(exp)))
+    ok = ok and same('failing paths', tx([tuple(f.path) for f in t.failures]), tx([('xs', i) for i in exp]))
+return ok
+"""
+    out.append(mk_case("c05.patharg.undefined_modifier", [("u1", U), ("u2", "int"), ("u3", "int")], body, pre=[f"BU({L}, u1, u2, u3)"], stubs=["sym_repr"]))
     # aliased documents: one container object under several branches - each branch is a node with its own failure entry
     for sh, c in [(("M", "b"), "gt"), (("X", "X"), "len"), (("l", "L", "b"), "eq"), (("M", "c", "i"), "gt")] + ([] if ctx.quick else [(("X", "X", "X"), "gt"), (("c", "L", "Lv"), "len")]):
         case = rule_case(sh, c, "da", L)
